@@ -278,7 +278,7 @@ def main(tier: str, budget_s: Optional[float] = None) -> int:
     for r in cli_results:
         if r is not None:
             cli_total.merge(r)
-    total, info, complete = run_phases(plan(tier), worker, FIRST, SYMBOLS, EXTRA, deadline)
+    total, info, complete = run_phases(plan(tier), worker, FIRST, SYMBOLS, EXTRA, deadline, by_depth=True)
     total.merge(cli_total)
     complete = complete and cli_done == nchunks
     info.append({"phase": "end-to-end: every history of depth <= 2 through the real command line, without and with -n", "histories": len(hs),
